@@ -5,33 +5,39 @@ From LTV.C20 Require Import ParamsGen Model ProofsB ProofsC ProofsD.
 Import ListNotations.
 Open Scope N_scope.
 
+Section Ord.
+  Variable fx : fixes.   (* any variant of the model, in particular any probed order policy *)
+
 (* two entries with the same 6 bytes on the wire (address of the peer index, port as two bytes:
    swap16 is the value SocketAddressCompact_less compares) *)
-Definition same_entry (a b : entry) : Prop := fst a = fst b /\ swap16 (snd a) = swap16 (snd b).
+Definition same_entry (a b : entry) : Prop :=
+  key_addr fx (fst a) = key_addr fx (fst b) /\ key_port fx (snd a) = key_port fx (snd b).
 
 Lemma same_refl : forall a, same_entry a a.
 Proof. intro a. split; reflexivity. Qed.
 Lemma same_trans : forall a b c, same_entry a b -> same_entry b c -> same_entry a c.
 Proof. intros a b c [A1 A2] [B1 B2]. split; congruence. Qed.
 
-Lemma not_less_same : forall a b, entry_less a b = false -> entry_less b a = false -> same_entry a b.
+Lemma not_less_same : forall a b, entry_less fx a b = false -> entry_less fx b a = false -> same_entry a b.
 Proof.
   intros a b H1 H2. unfold entry_less in *. unfold same_entry.
-  destruct (fst a <? fst b) eqn:A; [discriminate H1|]. destruct (fst b <? fst a) eqn:B; [discriminate H2|].
+  set (ka := key_addr fx (fst a)) in *. set (kb := key_addr fx (fst b)) in *.
+  set (pa := key_port fx (snd a)) in *. set (pb := key_port fx (snd b)) in *.
+  destruct (ka <? kb) eqn:A; [discriminate H1|]. destruct (kb <? ka) eqn:B; [discriminate H2|].
   cbn in H1, H2. apply N.ltb_ge in A. apply N.ltb_ge in B.
-  assert (E : fst a = fst b) by lia. rewrite E in *. rewrite N.eqb_refl in *. cbn in H1, H2.
+  assert (E : ka = kb) by lia. rewrite E in *. rewrite N.eqb_refl in *. cbn in H1, H2.
   apply N.ltb_ge in H1. apply N.ltb_ge in H2. split; [reflexivity|lia].
 Qed.
 
 (* std::set_difference leaves nothing of a  =>  every element of a is matched in b *)
-Lemma set_diff_nil_cover : forall a b, set_diff a b = [] ->
+Lemma set_diff_nil_cover : forall a b, set_diff fx a b = [] ->
   forall e, In e a -> exists e', In e' b /\ same_entry e e'.
 Proof.
   induction a as [|x a IHa]; intros b H e Hin; [destruct Hin|].
   induction b as [|y b IHb].
   - cbn in H. discriminate H.
-  - cbn in H. destruct (entry_less x y) eqn:L1; [discriminate H|].
-    destruct (entry_less y x) eqn:L2.
+  - cbn in H. destruct (entry_less fx x y) eqn:L1; [discriminate H|].
+    destruct (entry_less fx y x) eqn:L2.
     + destruct (IHb H) as (e' & A & B). exists e'. split; [right; exact A|exact B].
     + destruct Hin as [Hin|Hin].
       * subst e. exists y. split; [left; reflexivity|apply not_less_same; assumption].
@@ -48,16 +54,16 @@ Proof. intros l a r H. destruct l; cbn in H; [discriminate H|]. inversion H; aut
 Definition connected_with_port (d : dstate) (e : entry) : Prop :=
   exists c, In c (d_conns d) /\ x_listen (c_x c) <> 0 /\ same_entry e (c_peer c, x_listen (c_x c)).
 
-Lemma current_connected : forall d e, In e (sort_entries (current_entries (d_conns d))) -> connected_with_port d e.
+Lemma current_connected : forall d e, In e (sort_entries fx (current_entries (d_conns d))) -> connected_with_port d e.
 Proof.
-  intros d e H. apply (proj1 (sort_entries_in _ _)) in H. destruct (current_entries_connected _ _ H) as (c & A & B & C & D).
+  intros d e H. apply (proj1 (sort_entries_in _ _ _)) in H. destruct (current_entries_connected _ _ H) as (c & A & B & C & D).
   exists c. split; [exact A|]. split; [rewrite C; exact D|]. destruct e as [e1 e2]. cbn in *. subst. apply same_refl.
 Qed.
 
 Lemma connected_same : forall d e e', same_entry e e' -> connected_with_port d e' -> connected_with_port d e.
 Proof. intros d e e' S (c & A & B & C). exists c. repeat split; auto; destruct S, C; cbn in *; congruence. Qed.
 
-Lemma set_diff_nil_r : forall a, set_diff a [] = a.
+Lemma set_diff_nil_r : forall a, set_diff fx a [] = a.
 Proof. destruct a; reflexivity. Qed.
 
 (* the tail of do_peer_exchange: which buffers result *)
@@ -82,14 +88,14 @@ Proof.
 Qed.
 
 (* do_peer_exchange, restated with dpe_buffers *)
-Lemma dpe_shape : forall d d1, do_peer_exchange d = DpeOk d1 ->
-  let cur := sort_entries (current_entries (d_conns d)) in
-  let added := set_diff cur (d_list d) in
-  let removed := set_diff (d_list d) cur in
+Lemma dpe_shape : forall d d1, do_peer_exchange fx d = DpeOk d1 ->
+  let cur := sort_entries fx (current_entries (d_conns d)) in
+  let added := set_diff fx cur (d_list d) in
+  let removed := set_diff fx (d_list d) cur in
   exists added' list',
     ((Params.c20_max_pex_list <? N.of_nat (length cur)) = true /\
        added' = firstn (length added - N.to_nat (N.of_nat (length cur) - Params.c20_max_pex_list)) added /\
-       list' = sort_entries (set_diff (d_list d) removed ++ added')
+       list' = sort_entries fx (set_diff fx (d_list d) removed ++ added')
      \/ (Params.c20_max_pex_list <? N.of_nat (length cur)) = false /\ added' = added /\ list' = cur) /\
     d_list d1 = list' /\
     d_initial d1 = fst (dpe_buffers d added' removed list') /\
@@ -102,9 +108,9 @@ Proof.
   all: cbv beta iota zeta in E.
   all: match type of E with context [pex_loop ?a ?b ?c] => destruct (pex_loop a b c) as [l2 s2] end.
   all: cbv zeta.
-  all: set (cur := sort_entries (current_entries (d_conns d))) in *.
+  all: set (cur := sort_entries fx (current_entries (d_conns d))) in *.
   all: destruct ((Params.c20_max_pex_list <? N.of_nat (length cur)) &&
-                 (N.of_nat (length (set_diff cur (d_list d))) <? N.of_nat (length cur) - Params.c20_max_pex_list)); [discriminate E|].
+                 (N.of_nat (length (set_diff fx cur (d_list d))) <? N.of_nat (length cur) - Params.c20_max_pex_list)); [discriminate E|].
   all: destruct (Params.c20_max_pex_list <? N.of_nat (length cur)) eqn:Ecap; cbv beta iota zeta in E.
   all: eexists; eexists; split; [first [left; split; [reflexivity|split; reflexivity] | right; split; [reflexivity|split; reflexivity]]|].
   all: unfold dpe_buffers.
@@ -113,18 +119,18 @@ Proof.
   all: cbv beta iota zeta in E; inversion E; cbn; repeat split; reflexivity.
 Qed.
 
-(* one do_peer_exchange round *)
+(* one do_peer_exchange fx round *)
 Lemma dpe_round : forall d d1,
-  initial_in_list d -> do_peer_exchange d = DpeOk d1 ->
+  initial_in_list d -> do_peer_exchange fx d = DpeOk d1 ->
   initial_in_list d1 /\
-  (N.of_nat (length (sort_entries (current_entries (d_conns d)))) <= Params.c20_max_pex_list ->
+  (N.of_nat (length (sort_entries fx (current_entries (d_conns d)))) <= Params.c20_max_pex_list ->
    (forall e, In e (d_list d1) -> connected_with_port d e) /\
    (forall a r e, d_delta d1 = Some (a, r) -> In e a -> connected_with_port d e) /\
    (forall a r e, d_initial d1 = Some (a, r) -> In e a -> connected_with_port d e)).
 Proof.
   intros d d1 PI E. destruct (dpe_shape d d1 E) as (added' & list' & Hsh & Hl & Hi & Hd). cbv zeta in Hsh.
-  set (cur := sort_entries (current_entries (d_conns d))) in *.
-  assert (UN : added' = [] -> set_diff (d_list d) cur = [] -> forall e, In e (d_list d) -> exists e', In e' list' /\ same_entry e e').
+  set (cur := sort_entries fx (current_entries (d_conns d))) in *.
+  assert (UN : added' = [] -> set_diff fx (d_list d) cur = [] -> forall e, In e (d_list d) -> exists e', In e' list' /\ same_entry e e').
   { intros Ha Hr e Hin. destruct Hsh as [(Hc & Ea & El)|(Hc & Ea & El)].
     - exists e. split; [|apply same_refl]. subst list'. apply sort_entries_in. rewrite Hr, Ha, app_nil_r, set_diff_nil_r. exact Hin.
     - subst list'. exact (set_diff_nil_cover _ _ Hr _ Hin). }
@@ -134,7 +140,7 @@ Proof.
     subst added' list'. rewrite Hl, Hi, Hd. repeat split.
     + intros e Hin. apply current_connected. exact Hin.
     + intros a r e Hs Hin. unfold dpe_buffers in Hs.
-      destruct (set_diff cur (d_list d)) as [|x xs] eqn:Eadd; destruct (set_diff (d_list d) cur) as [|y ys]; cbn in Hs; try discriminate Hs;
+      destruct (set_diff fx cur (d_list d)) as [|x xs] eqn:Eadd; destruct (set_diff fx (d_list d) cur) as [|y ys]; cbn in Hs; try discriminate Hs;
         inversion Hs; subst; apply current_connected; eapply set_diff_subset; unfold cur in Eadd; rewrite Eadd; exact Hin.
     + intros a r e Hs Hin.
       destruct (dpe_buffers_inv d _ _ cur PI UN a r e Hs Hin) as (e' & A & B).
@@ -142,7 +148,7 @@ Proof.
 Qed.
 
 (* ------------------------------------------------------------------------------------------ *)
-(* the invariant holds in every reachable state (only do_peer_exchange touches the buffers) *)
+(* the invariant holds in every reachable state (only do_peer_exchange fx touches the buffers) *)
 
 Definition same_pex (d d' : dstate) : Prop := d_list d' = d_list d /\ d_initial d' = d_initial d.
 
@@ -154,9 +160,9 @@ Proof. split; reflexivity. Qed.
 Lemma same_pex_trans : forall a b c, same_pex a b -> same_pex b c -> same_pex a c.
 Proof. intros a b c [A1 A2] [B1 B2]. split; congruence. Qed.
 
-Lemma settle_frame : forall f fx d i acc d' o, settle f fx d i acc = SOk d' o -> same_pex d d'.
+Lemma settle_frame : forall f d i acc d' o, settle f fx d i acc = SOk d' o -> same_pex d d'.
 Proof.
-  induction f as [|f IH]; intros fx d i acc d' o H; [discriminate H|].
+  induction f as [|f IH]; intros d i acc d' o H; [discriminate H|].
   rewrite settle_S in H. cbv zeta in H.
   destruct (find_conn i (d_conns d)) as [c|]; [|inversion H; subst; apply same_pex_refl].
   destruct (i_in_read (c_io c) && negb (is_nil (i_sock (c_io c)))).
@@ -170,17 +176,17 @@ Proof.
     + inversion H; subst. apply same_pex_refl.
 Qed.
 
-Lemma settle_all_frame : forall fx ids d acc d' o, settle_all fx d ids acc = SOk d' o -> same_pex d d'.
+Lemma settle_all_frame : forall ids d acc d' o, settle_all fx d ids acc = SOk d' o -> same_pex d d'.
 Proof.
-  intros fx ids. induction ids as [|i r IH]; intros d acc d' o H.
+  intros ids. induction ids as [|i r IH]; intros d acc d' o H.
   - cbn in H. inversion H; subst. apply same_pex_refl.
   - rewrite settle_all_cons in H. destruct (settle settle_fuel fx d i []) as [d1 o1| |] eqn:E; try discriminate H.
     eapply same_pex_trans; [eapply settle_frame; exact E|eapply IH; exact H].
 Qed.
 
-Lemma tick_PI : forall fx d d' o, initial_in_list d -> tick fx d = SOk d' o -> initial_in_list d'.
+Lemma tick_PI : forall d d' o, initial_in_list d -> tick fx d = SOk d' o -> initial_in_list d'.
 Proof.
-  intros fx d d' o PI E. unfold tick in E.
+  intros d d' o PI E. unfold tick in E.
   match type of E with context [settle_all fx ?a ?b ?c] => destruct (settle_all fx a b c) as [d0 o0| |] eqn:E0 end; try discriminate E.
   assert (P0 : initial_in_list d0).
   { eapply PI_ext; [eapply settle_all_frame; exact E0|]. eapply PI_ext; [|exact PI]. split; reflexivity. }
@@ -193,9 +199,9 @@ Proof.
   eapply PI_ext; [eapply settle_all_frame; exact E|]. eapply PI_ext; [|exact P1]. split; reflexivity.
 Qed.
 
-Lemma step_PI : forall fx d o d' outs, initial_in_list d -> step fx d o = SOk d' outs -> initial_in_list d'.
+Lemma step_PI : forall d o d' outs, initial_in_list d -> step fx d o = SOk d' outs -> initial_in_list d'.
 Proof.
-  intros fx d o d' outs PI E. destruct o as [i|i ms| |i|i b|b]; cbn [step] in E.
+  intros d o d' outs PI E. destruct o as [i|i ms| |i|i b|b]; cbn [step] in E.
   - destruct (existsb (N.eqb i) (d_used d)); inversion E; subst; [exact PI|]. eapply PI_ext; [|exact PI]. split; reflexivity.
   - destruct (find_conn i (d_conns d)) as [c|]; [|inversion E; subst; exact PI].
     eapply PI_ext; [eapply settle_frame; exact E|]. eapply PI_ext; [|exact PI]. split; reflexivity.
@@ -211,10 +217,10 @@ Qed.
 Lemma init_PI : forall priv m minp, initial_in_list (init priv m minp).
 Proof. intros priv m minp a r e H. discriminate H. Qed.
 
-Theorem pex_invariant_reachable : forall fx priv m minp ops,
+Theorem pex_invariant_reachable : forall priv m minp ops,
   initial_in_list (final_state fx (start fx priv m minp) ops).
 Proof.
-  intros fx priv m minp ops.
+  intros priv m minp ops.
   assert (S : initial_in_list (start fx priv m minp)).
   { unfold start. destruct (tick fx (init priv m minp)) as [d o| |] eqn:E; try apply init_PI. eapply tick_PI; [apply init_PI|exact E]. }
   revert S. generalize (start fx priv m minp). induction ops as [|o r IH]; intros d S; cbn [final_state]; [exact S|].
@@ -227,18 +233,20 @@ Qed.
    a CURRENTLY CONNECTED peer with a non-zero listen port. (Entries are whole 6-byte records by
    construction: list entry.) The same holds for the state the tick actually applies it to (after
    the keep-alive reads), since those reads do not change the buffers (settle_all_frame). *)
-Theorem pex_exact : forall fx priv m minp ops d1,
+Theorem pex_exact : forall priv m minp ops d1,
   let d := final_state fx (start fx priv m minp) ops in
-  do_peer_exchange d = DpeOk d1 ->
-  N.of_nat (length (sort_entries (current_entries (d_conns d)))) <= Params.c20_max_pex_list ->
+  do_peer_exchange fx d = DpeOk d1 ->
+  N.of_nat (length (sort_entries fx (current_entries (d_conns d)))) <= Params.c20_max_pex_list ->
   (forall e, In e (d_list d1) -> connected_with_port d e) /\
   (forall a r e, d_delta d1 = Some (a, r) -> In e a -> connected_with_port d e) /\
   (forall a r e, d_initial d1 = Some (a, r) -> In e a -> connected_with_port d e).
 Proof.
-  intros fx priv m minp ops d1 d E Hcap.
-  exact (proj2 (dpe_round d d1 (pex_invariant_reachable fx priv m minp ops) E) Hcap).
+  intros priv m minp ops d1 d E Hcap.
+  exact (proj2 (dpe_round d d1 (pex_invariant_reachable priv m minp ops) E) Hcap).
 Qed.
 
-Example ex_pex_round : exists d1, do_peer_exchange (final_state current_fixes (start current_fixes false small_meta 40)
+End Ord.
+
+Example ex_pex_round : exists d1, do_peer_exchange current_fixes (final_state current_fixes (start current_fixes false small_meta 40)
     [Connect 0; Recv 0 [(MHandshake (hs_of (Some 1%Z) (Some 3%Z) (Some 7000%Z)), 60)]]) = DpeOk d1 /\ d_list d1 = [(0, 7000)].
 Proof. eexists. split; vm_compute; reflexivity. Qed.
